@@ -319,7 +319,7 @@ def search_round_trip(ctx: Ctx) -> SearchResult:
 				with open(os.path.join(d, fn), encoding='utf-8') as f:
 					for t in json.load(f).get('trees', []):
 						trees.append(_tuplify(t))
-	for i in range(ctx.scale(600, 7000)):
+	for i in range(ctx.scale(420, 7000)):
 		trees.append(gen.grammar(rng.randint(1, 6), rng.randint(0, 3), bare_groups=rng.random() < 0.12))
 	dl = gramlib.Deadline(ctx.scale(120, 900))
 	for t in trees:
